@@ -85,6 +85,33 @@ def run(ctx):
                 ctx.count_case((i, rec, tuple(xs)), nontrivial=ref != 0)
                 if not close_enough(dec_val(enc), ref, rel=1e-9):
                     viol(ctx, f"to_cfg:{rec}", f"to_cfg(recursion={rec})({xs}) = {dec_val(enc)}; the automaton gives {ref}", {"kind": "convert", "op": "to_cfg", "recursion": rec, "machine": m, "xs": xs, "observed": str(dec_val(enc)), "expected": str(ref)})
+    # ---- to_cfg on automata with epsilon cycles and epsilon self-loops (floats; reference: exact path sums with (I-E)^-1)
+    cm = []
+    while len(cm) < (25 if quick else 250):
+        m = F.rand_wfsa(ctx.rng, peps=0.45, eps_acyclic=False, nT=2, n=ctx.rng.randint(1, 3), ws=[Fraction(1, 2), Fraction(1, 3), Fraction(1, 4), Fraction(1, 5)])
+        if ctx.rng.random() < 0.6 and m["init"]:
+            q0 = ctx.rng.choice([m["init"][0][0]] + [j for _, _, j, _ in m["arcs"]])
+            m["arcs"].append([q0, None, q0, "1/4"])  # epsilon self-loop
+            F.substochastic(m)
+        if any(a is None and i == j for i, a, j, _ in m["arcs"]) or any(a is None for _, a, _, _ in m["arcs"]):
+            cm.append(m)
+    for rec in ("right", "left"):
+        res = run_w([{"queries": [{"op": "to_cfg", "m": m, "xs": strs, "recursion": rec, "flt": True, "timeout": 40}]} for m in cm])
+        for m, r in zip(cm, res):
+            q = r[0]
+            ctx.dist("to_cfg:eps-cyclic")
+            if "err" in q:
+                if "timeout" in q["err"]:
+                    continue
+                viol(ctx, f"to_cfg:{rec}:float-error:{q['err'][:30]}", f"to_cfg({rec}) raised {q['err']}", {"kind": "convert-error", "op": "to_cfg", "recursion": rec, "flt": True, "machine": m, "error": q["err"]})
+                continue
+            for xs, enc in zip(strs, q["ok"]):
+                ref = F.wfsa_oracle(m, xs)
+                ctx.cov["oracle_cases"] += 1
+                ctx.count_case(("eps-cyclic", json.dumps(m), rec, tuple(xs)), nontrivial=ref != 0)
+                if not close_enough(dec_val(enc), ref, rel=1e-7):
+                    viol(ctx, f"to_cfg:{rec}:eps-cyclic", f"to_cfg(recursion={rec})({xs}) = {dec_val(enc)} on an automaton with epsilon cycles; the automaton's path sum is {ref}",
+                         {"kind": "convert", "op": "to_cfg", "recursion": rec, "flt": True, "machine": m, "xs": xs, "observed": str(dec_val(enc)), "expected": str(ref)})
     # ---- to_cfg on automata whose state names coincide with alphabet symbols (library constructors)
     jobs, cases = [], []
     for _ in range(10 if quick else 60):
@@ -189,7 +216,7 @@ def run(ctx):
 def replay(obj):
     op = obj["op"]
     if op == "to_cfg":
-        q = {"op": "to_cfg", "m": obj["machine"], "xs": [obj.get("xs", [])], "recursion": obj["recursion"]}
+        q = {"op": "to_cfg", "m": obj["machine"], "xs": [obj.get("xs", [])], "recursion": obj["recursion"], "flt": obj.get("flt", False)}
     elif op == "to_cfg-names":
         e = {"op": "from_string", "xs": obj["w"]} if obj["which"] == "from_string" else {"op": "from_strings", "Xs": obj["Xs"]}
         q = {"op": "to_cfg", "e": e, "xs": [obj.get("xs", [])], "recursion": obj["recursion"]}
